@@ -54,7 +54,9 @@ impl BinaryData {
             BinaryData::Zeroed(len) => *len,
             BinaryData::Slice { length, .. } => *length,
             BinaryData::Concat { total_length, .. } => *total_length,
-            BinaryData::Tiled { unit, count } => unit.len() * count,
+            // Saturating: a repetition too long to address must still measure as over the
+            // size limit (which `allocate_binary_data` enforces on this length), not wrap.
+            BinaryData::Tiled { unit, count } => unit.len().saturating_mul(*count),
         }
     }
 
